@@ -521,7 +521,8 @@ def fam_ps_order(cx):
     rng, run = cx.rng, cx.run
     fam = str(rng.choice(["star", "random", "mctdh", "linear"], p=[0.35, 0.3, 0.25, 0.1]))
     # rejection-sample a model with an edge where "the complete side" depends on the label block
-    targeted = bool(rng.random() < 0.5)
+    cx.n_psorder = getattr(cx, "n_psorder", 0) + 1
+    targeted = bool(rng.random() < 0.5) or cx.n_psorder <= 6
     for _ in range(60):
         if targeted:
             spec = L.gen_mixed_star(rng)
@@ -540,7 +541,7 @@ def fam_ps_order(cx):
         run.count("rejected:random-state")
         return
     hn = np.linalg.norm(h, 2)
-    method, _ = _pick(cx, spec, PS if rng.random() < 0.7 else PS2)
+    method, _ = _pick(cx, spec, PS if (rng.random() < 0.7 or cx.n_psorder <= 6) else PS2)
     imag = bool(rng.random() < 0.4)
     tau = _tau(rng, hn, imag, 0.25, 0.7)
     state0 = dict(np_seed=seed, qntot=np.asarray(q).tolist(), tensors=L.tensors_json(t0))
@@ -805,7 +806,8 @@ def fam_annihilated(cx):
     q = np.array([nset if filled else 0])
     state0 = dict(kind="hartree", occupation=int(filled), qntot=q.tolist(), tensors=L.tensors_json(t))
     method, normalize = _pick(cx, spec, _draw_method(rng))
-    if "evolve:pc_tdrk4:H-annihilates-state:raises-ValueError" not in cx.crashed and rng.random() < 0.5:
+    cx.n_annih = getattr(cx, "n_annih", 0) + 1
+    if cx.n_annih == 1 or ("evolve:pc_tdrk4:H-annihilates-state:raises-ValueError" not in cx.crashed and rng.random() < 0.5):
         method = PC
     imag = bool(rng.random() < 0.5)
     tau = _tau(rng, np.linalg.norm(h, 2), imag, 0.05, 0.5)
